@@ -1172,6 +1172,20 @@ def _const_expr(e, module_consts, depth=0):
     return False
 
 
+def _table_comprehension(e, stable):
+    """a dict / list / set comprehension (or `|` of such) that derives a table from imported objects with effect-free
+    expressions: evaluating it once at import time or at every use gives equal tables"""
+    if isinstance(e, ast.BinOp) and isinstance(e.op, ast.BitOr):
+        return _table_comprehension(e.left, stable) and _table_comprehension(e.right, stable)
+    if isinstance(e, ast.Name):
+        return e.id in stable
+    if not isinstance(e, (ast.DictComp, ast.ListComp, ast.SetComp)) or not is_pure(e, extra_pure=stable):
+        return False
+    bound = {n.id for g in e.generators for n in ast.walk(g.target) if isinstance(n, ast.Name)}
+    free = {n.id for n in ast.walk(e) if isinstance(n, ast.Name) and isinstance(n.ctx, ast.Load)} - bound
+    return free <= stable | set(PURE_FUNCS) | {"type"}
+
+
 def inline_constants(tree, shape):
     pinned = set(shape["names"])
     consts = {}
@@ -1181,10 +1195,18 @@ def inline_constants(tree, shape):
         if isinstance(st, ast.Assign) and len(st.targets) == 1 and isinstance(st.targets[0], ast.Name):
             once.setdefault(st.targets[0].id, []).append(st)
     module_consts = {n for n, sts in once.items() if len(sts) == 1 and (_literal(sts[0].value) or isinstance(sts[0].value, ast.Constant))}
+    # names that denote the same object for the life of the module: imports, classes, functions (never re-bound)
+    stable = set()
+    for st in tree.body:
+        if isinstance(st, (ast.Import, ast.ImportFrom)):
+            stable |= {(a.asname or a.name).split(".")[0] for a in st.names}
+        elif isinstance(st, (ast.FunctionDef, ast.ClassDef)):
+            stable.add(st.name)
+    stable -= {n.id for n in ast.walk(tree) if isinstance(n, ast.Name) and isinstance(n.ctx, (ast.Store, ast.Del))}
     for st in tree.body:
         if isinstance(st, ast.Assign) and len(st.targets) == 1 and isinstance(st.targets[0], ast.Name):
             name = st.targets[0].id
-            if name in pinned or not (_literal(st.value) or _const_expr(st.value, module_consts)):
+            if name in pinned or not (_literal(st.value) or _const_expr(st.value, module_consts) or _table_comprehension(st.value, stable)):
                 continue
             consts[name] = st
     if not consts:
@@ -1221,6 +1243,28 @@ def inline_constants(tree, shape):
             if ast.dump(top) != before and name not in done:
                 done.append(name)
     return done
+
+
+# ----------------------------------------------------------------------- N14 loops over a one-element display
+def unroll_singleton_loops(fn):
+    """`for x in (a,): body` (a display with one element, plain name target, no break / continue / else) is `x = a; body`"""
+    n = 0
+    for owner, field, lst in _stmt_lists(fn):
+        i = 0
+        while i < len(lst):
+            st = lst[i]
+            if isinstance(st, ast.For) and isinstance(st.iter, (ast.Tuple, ast.List)) and len(st.iter.elts) == 1 \
+                    and not isinstance(st.iter.elts[0], ast.Starred) and isinstance(st.target, ast.Name) and not st.orelse \
+                    and not _break_at_level(st.body) and not any(isinstance(x, ast.Continue) for b in st.body for x in _walk_stmt(b)
+                                                                 if not isinstance(x, (ast.For, ast.While))):
+                bind = ast.copy_location(ast.Assign(targets=[ast.Name(id=st.target.id, ctx=ast.Store())], value=st.iter.elts[0],
+                                                    lineno=st.lineno), st)
+                ast.fix_missing_locations(bind)
+                lst[i:i + 1] = [bind] + st.body
+                n += 1
+                continue
+            i += 1
+    return n
 
 
 # ----------------------------------------------------------------------- N6 compiled patterns
@@ -1809,6 +1853,8 @@ def normalise(tree, modname, shape_all=None, keep=frozenset()):
         pinned = shape["functions"].get(q)
         if pinned is None:
             continue
+        if unroll_singleton_loops(fn):
+            log.setdefault("unrolled", []).append(q)
         new_locals = fn_locals(fn) - set(pinned["locals"])
         if new_locals:
             kd = expand_keyword_dicts(fn, new_locals)
